@@ -77,6 +77,7 @@ SCENARIOS = {
         before=[],
     ),
     "nothing-at-one-argument": dict(key=("C0", "C1"), handlers=[H("first-only", 1, 2, at={0: 1}), H("second-only", 1, 2, at={1: 1})], want={}, before=[]),
+    "nothing-at-the-first-argument": dict(key=("C0", "C1", "C2"), handlers=[H("later-only", 3, 3, at={1: 1, 2: 1}), H("last-only", 3, 3, at={2: 0})], want={}, before=[]),
     "priority-first": dict(
         key=("C0",),
         handlers=[H("specific", 1, 1, at={0: 3}), H("general-but-prior", 1, 1, priority=1, at={0: 0}), H("middle", 1, 1, at={0: 1})],
